@@ -61,6 +61,16 @@ ROWS = {
          "DESIGN.md §3.2 PwStr, §7 C10",
          "small costs; classic str_verify judged on 32-byte hashes only (libsodium's format); libsodium's verifier is the independent oracle for variable lengths",
          "TLA+ codec spec checked by TLC; object table replayed with libsodium as verifier"),
+ "C07": ("exploration",
+         "spec/ref holds executable TLA+ transcriptions of RFC 7693 (BLAKE2b, full parameter block), FIPS 180-4 (SHA-512), RFC 2104 (HMAC), RFC 8439 (Poly1305, ChaCha/HChaCha20), the Salsa20/HSalsa20 and SipHash papers and sodium_increment, each pinned to its published vectors; TLC evaluates them on boundary lengths of every block size, digest/key extremes and all-0xff operands, and model-checks the Poly1305 accumulator state machine to FIND messages whose accumulator lands on 0..5, p-6..p-1, needs the final subtraction, a second fold or carries out of 2^128/2^130; dryoc (every API route, three builds) must equal the TLA+ value and libsodium on all of them, and libsodium on every length 0..1100 x fillers x key/digest pairs; verify functions accept the right tag and reject every single-bit change",
+         "DESIGN.md §3.2 spec/ref, §7 C07",
+         "two independent references (TLA+ transcription evaluated by TLC; libsodium); inputs inside a length are seeded pseudo-random, 0xff or zero",
+         "executable TLA+ reference evaluated by TLC + model-checked corner search; three-way differential replay"),
+ "C12": ("exploration",
+         "spec/ref/Kdf.tla defines the subkey as BLAKE2b(key = master, salt = id LE || 0, personal = context || 0, digest length = subkey length) on the executable BLAKE2b; TLC evaluates ids {0, 1, 2^32, 2^63, 2^64-1} x lengths; dryoc (classic and Kdf object) = TLA+ value = libsodium on those, dryoc = libsodium on all 49 accepted lengths x 10 ids x master keys/contexts, lengths 0..15 and 65..80 rejected, subkeys pairwise distinct",
+         "DESIGN.md §3.2 spec/ref, §7 C12",
+         "master keys and contexts seeded pseudo-random; two independent references",
+         "executable TLA+ reference evaluated by TLC; three-way differential replay"),
 }
 NOT_YET = "check not built yet (work in progress; see DESIGN.md section 7)"
 
